@@ -126,7 +126,7 @@ class Gen:
     def __init__(self, rng, tier):
         self.rng = rng
         self.tier = tier
-        self.semi_any = False     # F34 stream: ';' also inside tag values / non-lowercase TEXT keys
+        self.semi_any = False     # ';' also inside tag values (regression guard for F104)
 
     # --- coordinates / sizes in the notation of frame `fr` (None => pick a style at random)
     def pos_pair(self, fr, exact):
@@ -305,8 +305,6 @@ class Gen:
                 if cls == 'numeric':
                     d, v = '{', 'grp ' + v
             key = vcase(rng, k)
-            if k == 'text' and ';' in v and not self.semi_any:
-                key = 'text'          # see F34: ';' inside a value is only protected for the lowercase key `text`
             eq = '=' if rng.random() < 0.9 else rng.choice([' = ', '= ', ' ='])
             items.append({'key': key, 'eq': eq, 'd': d, 'val': v})
             if k == 'dash' and rng.random() < 0.6 and 'dashlist' not in [i['key'].lower() for i in items]:
@@ -395,7 +393,7 @@ class Gen:
 
     def file(self):
         rng = self.rng
-        self.semi_any = rng.random() < 0.06
+        self.semi_any = rng.random() < 0.3
         stmts = []
         if rng.random() < 0.4:
             stmts.append({'t': 'comment', 'text': '# Region file format: DS9 version 4.1'})
@@ -767,7 +765,7 @@ def edge_delim(s):
 
 def scope_info(stmts):
     """for every statement: the global include value in force (last `include=` of the global
-    lines before it), read off the STRUCTURE (used only to describe finding F31's input class)."""
+    lines before it), read off the STRUCTURE (used only to describe finding F101's input class)."""
     out = []
     ginc = None
     for s in stmts:
@@ -779,33 +777,6 @@ def scope_info(stmts):
                 if k == 'include' and k not in seen:
                     ginc = p['val']
                 seen.add(k)
-    return out
-
-
-def semi_triggers(stmts):
-    """F34 input class: a ';' inside a delimited value whose key is not the lowercase literal `text`."""
-    out = []
-    for i, s in enumerate(stmts):
-        for p in (s.get('props') or {'items': []})['items'] if s['t'] in ('region', 'badshape') else []:
-            if ';' in p['val'] and p['d'] and p['key'] != 'text':
-                out.append((i, p['key']))
-    return out
-
-
-def without_semis(lines):
-    """the same file with every triggering ';' replaced by ','."""
-    out = []
-    for line in lines:
-        nl = []
-        for s in line:
-            if s.get('props') and s['t'] in ('region', 'badshape'):
-                s = dict(s)
-                pr = dict(s['props'])
-                pr['items'] = [dict(p, val=p['val'].replace(';', ',')) if (';' in p['val'] and p['d'] and p['key'] != 'text')
-                               else p for p in pr['items']]
-                s['props'] = pr
-            nl.append(s)
-        out.append(nl)
     return out
 
 
@@ -822,7 +793,7 @@ class Check(PropertyCheck):
             'x notation (bare, " \' d r i, a:b:c, ahbmcs, adbmcs, signs, padding) x separators (newline / ; , optional parentheses, '
             'commas or blanks) x keyword and key case x include sign x property lists (color width fill dash dashlist font point '
             'textangle include flags text tag with {} "" \'\' delimiters and verbatim content incl. ; # = other delimiters, numeric-looking '
-            'and blank-padded text); 6% of the files also put ";" into tag values / non-lowercase TEXT keys (F34 class). '
+            'and blank-padded text; ";" inside text under any key spelling, and in 30% of the files inside tag values). '
             '60% of region lines use dyadic decimals (compared EXACTLY), the rest general decimals / sexagesimal / radians '
             '(1e-9 relative). Non-trivial = the reference yields at least one region.')
     assumptions = [
@@ -844,9 +815,9 @@ class Check(PropertyCheck):
         'lexing (characters -> tokens) is executable Lean (Spec.Ds9.lex, classify, mkKV) and is validated against the harness renderer '
         'on every generated file, but no theorem is stated about it: the separator / punctuation / case theorems are at token level',
         '"skipped with a warning": the presence of a warning for each unsupported line is checked on the real parser only (oracle)',
-        'known findings F31-F34 are input classes on which the real parser differs from the reference; they are reported as '
-        'KNOWN-FINDING with the predicate of known_findings/C10.json and excluded from nothing else (for F34 files the metamorphic '
-        'oracle clauses are not evaluated: every layout of such a file is split differently by the same defect)',
+        'F101-F104 (global include=0 ignored, numeric-looking text converted, foreign delimiter characters stripped, ";" inside a '
+        'delimited value splitting the line) are FIXED in /repo; their input classes are generated like any other and nothing is '
+        'excused: a regression is a VIOLATION; witnesses are kept in corpus/C10/',
         'outside the grammar (nothing claimed): composite, "# text(...)" spelling, box/ellipse without angle (the real parser raises '
         'ValueError for the whole file), wrong parameter counts, text containing its own closing delimiter, valueless flags (treated as '
         'comment text), duplicate keys in one property list, tag in a global line, angles in arcsec/arcmin, exponent notation and '
@@ -872,8 +843,6 @@ class Check(PropertyCheck):
         text = render_text(case['lines'], case['join'], case['final_nl'])
         out = parse_real(text)
         out['text'] = text
-        if semi_triggers(stmts):
-            out['nosemi'] = parse_real(render_text(without_semis(case['lines']), case['join'], case['final_nl']))
         if 'exc' in out:
             return out
         V = {}
@@ -956,12 +925,14 @@ class Check(PropertyCheck):
         regs = []
         for x in r['regions']:
             regs.append({'kind': x['kind'], 'frame': x['frame'], 'pts': x['pts'], 'sizes': x['sizes'], 'angle': x['angle'],
-                         'incl': x['incl'], 'view': expected_view(x['kind'], x['props']), 'src': int(x['src'])})
+                         'incl': x['incl'], 'view': expected_view(x['kind'], x['props']), 'src': int(x['src']),
+                         'props': x['props']})
         return {'regions': regs, 'nstmts': int(r['nstmts']), 'lex_ok': r.get('lex_ok'), 'lex_diff': r.get('lex_diff')}
 
     def equal(self, case, real, model):
-        """True iff the real result equals the reference, or every difference falls in the input class of an
-        OPEN known finding (those are reported by oracle() as violations of the property, never dropped)."""
+        """True iff the real result equals the reference (exactly, or within 1e-9 where the notation is inexact).
+        No input class is excused: F101-F104 are fixed, their former classes are ordinary inputs now and a
+        regression is reported by oracle() as a violation under the kind it had as a finding."""
         real['_diffs'] = []
         if 'fail' in model:
             real['_diffs'] = [{'kind': 'driver_failure', 'detail': model['fail']}]
@@ -970,38 +941,10 @@ class Check(PropertyCheck):
             real['_diffs'] = [{'kind': 'lexer_mismatch', 'detail': f"Spec.Ds9.lex(text) differs from the rendered tokens: "
                                                                      f"{model.get('lex_diff')} :: {real.get('text')!r}"}]
             return False
-        stmts = flat(case)
         if 'exc' in real:
-            diffs, ok = [{'kind': 'exception', 'detail': real['exc'] + ' :: ' + repr(real['text'])}], False
-        else:
-            diffs, ok = self._compare(stmts, real['regions'], model['regions'], real)
-        trig = semi_triggers(stmts)
-        if not ok and trig and 'exc' not in real.get('nosemi', {'exc': 1}):
-            # F34: does the file agree with the reference once the triggering ';' are replaced by ','?
-            tl = {i for i, _ in trig}
-            B2 = []
-            for b in model['regions']:
-                if b['src'] in tl:
-                    b = dict(b, view=dict(b['view']))
-                    for k in ('text', 'tag'):
-                        if k in b['view']:
-                            v = b['view'][k]
-                            b['view'][k] = ['s', v[1].replace(';', ',')] if v and v[0] == 's' else \
-                                [['s', x[1].replace(';', ',')] for x in v]
-                B2.append(b)
-            # (a lowercase `text` value of the same line keeps its ';' in the variant too)
-            for b in B2:
-                s0 = stmts[b['src']]
-                for p in (s0.get('props') or {'items': []})['items']:
-                    if p['key'] == 'text' and b['src'] in tl and 'text' in b['view']:
-                        b['view']['text'] = ['s', p['val']]
-            d2, ok2 = self._compare(stmts, real['nosemi']['regions'], B2, real)
-            if ok2:
-                diffs = d2 + [{'kind': 'semicolon_in_value_splits_line', 'keys': [k for _, k in trig],
-                               'detail': f"';' inside the value of {[k for _, k in trig]} splits the line: "
-                                         f"{(real.get('exc') or str(len(real['regions'])) + ' regions')} instead of "
-                                         f"{len(model['regions'])} regions :: {real['text']!r}"}]
-                ok = True
+            real['_diffs'] = [{'kind': 'exception', 'detail': real['exc'] + ' :: ' + repr(real['text'])}]
+            return False
+        diffs, ok = self._compare(flat(case), real['regions'], model['regions'], real)
         real['_diffs'] = diffs
         return ok
 
@@ -1028,8 +971,7 @@ class Check(PropertyCheck):
                     v.update(kind='text_converted_to_number', value=bv[1])
                 elif f in ('view.text', 'view.tag') and self._edge_case(av, bv):
                     v.update(kind='text_delimiter_chars_stripped', value=self._edge_case(av, bv))
-                else:
-                    ok = False
+                ok = False          # the kinds above only name the (fixed) defect a difference looks like
                 diffs.append(v)
         return diffs, ok
 
@@ -1052,14 +994,10 @@ class Check(PropertyCheck):
         def bad(kind, detail, **kw):
             V.append(dict(kind=kind, detail=f'{detail} :: {text!r}', **kw))
         if 'exc' in real:
-            if not any(v['kind'] in ('exception', 'semicolon_in_value_splits_line') for v in V):
+            if not any(v['kind'] == 'exception' for v in V):
                 bad('exception', real['exc'])
             return V
         stmts = flat(case)
-        if semi_triggers(stmts):
-            # F34 input class: every layout variant of such a file is split differently by the same defect;
-            # the metamorphic clauses are checked on the files outside that class
-            return V
         var = real['variants']
         base = real['regions']
         for name in ('nl', 'semi', 'paren', 'bare', 'nobad'):
